@@ -20,6 +20,7 @@ type LField struct {
 	N      int    // width for fixed/bin/hex, element width for rep
 	Ref    string // length / count member for bytes / rep
 	Member string
+	Max    int // cstr: maximum octets including the NUL (0 = not stated)
 }
 
 type LayoutType struct {
@@ -124,6 +125,13 @@ func (w *World) loadLayouts() error {
 					return fmt.Errorf("%s: %s: %v", fn, t.Type, err)
 				}
 				lfld.Wire, lfld.Member = fmt.Sprint(f[0]), fmt.Sprint(f[2])
+				if len(f) > 3 {
+					if m, ok := f[3].(map[string]interface{}); ok {
+						if v, ok := m["max_octets_incl_nul"].(float64); ok {
+							lfld.Max = int(v)
+						}
+					}
+				}
 				lt.Fields = append(lt.Fields, lfld)
 			}
 			w.Layouts[lt.Pkg+"."+lt.Type] = lt
@@ -337,6 +345,9 @@ func (w *World) synthesise(fs *FuncSpec) error {
 	if len(dir) == 0 {
 		return nil
 	}
+	if dir[0] == "dispatch" {
+		return w.synthDispatch(fs)
+	}
 	tn := strings.TrimPrefix(fs.Recv, "*")
 	doc := w.Layouts[fs.Pkg+"."+tn]
 	if doc == nil {
@@ -367,6 +378,9 @@ func (w *World) synthesise(fs *FuncSpec) error {
 			for _, c := range f.wf(r) {
 				enc.Requires = append(enc.Requires, mustClause("requires", "", "", c))
 			}
+		}
+		if lt.Header != "none" {
+			enc.Requires = append(enc.Requires, mustClause("requires", "", "", "len("+lt.layoutText(r, "0", true, -1, len(lt.Fields))+") < 4294967296"))
 		}
 		enc.Ensures = append(enc.Ensures, mustClause("ensures", "C01,C02", "enc.ok", "err == nil"))
 		if lt.Header != "none" {
@@ -413,28 +427,32 @@ func (w *World) synthesise(fs *FuncSpec) error {
 			fs.Behaviors = append(fs.Behaviors, ref)
 		}
 	case "dec":
+		if lt.Header != "none" {
+			fs.Behaviors[0].Ensures = append(fs.Behaviors[0].Ensures, mustClause("ensures", "C10", "notunsupported", "err != sms.ErrUnsupportedPacket"))
+			fs.Options["check-default"] = "true"
+		}
 		dec := &Behavior{Name: "dec", Props: []string{"C01", "C02"}}
-		dec.Ghost = []CVar{{"q", tn}}
+		dec.Ghost = []CVar{{"gq", tn}}
 		dec.Requires = append(dec.Requires, mustClause("requires", "", "", r+" != nil"))
 		dec.Requires = append(dec.Requires, mustClause("requires", "", "", "len(data) < 4294967296"))
 		for _, f := range lt.Fields {
-			for _, c := range f.wf("q") {
+			for _, c := range f.wf("gq") {
 				dec.Requires = append(dec.Requires, mustClause("requires", "", "", c))
 			}
 			if f.Kind == "rep" {
 				dec.Requires = append(dec.Requires, mustClause("requires", "", "", "len("+r+"."+f.Member+") == 0"))
 			}
 		}
-		dec.Requires = append(dec.Requires, mustClause("requires", "", "", "content(data) == "+lt.layoutText("q", "len(data)", true, -1, len(lt.Fields))))
+		dec.Requires = append(dec.Requires, mustClause("requires", "", "", "content(data) == "+lt.layoutText("gq", "len(data)", true, -1, len(lt.Fields))))
 		dec.Ensures = append(dec.Ensures, mustClause("ensures", "C01,C02", "dec.ok", "err == nil"))
 		if lenMember != "" {
 			dec.Ensures = append(dec.Ensures, mustClause("ensures", "C01,C02", "dec.Header.len", "int("+lenMember+") == len(data)"))
 		}
-		for i, c := range lt.headerEq(r, "q") {
+		for i, c := range lt.headerEq(r, "gq") {
 			dec.Ensures = append(dec.Ensures, mustClause("ensures", "C01,C02", fmt.Sprintf("dec.Header.%d", i), c))
 		}
 		for _, f := range lt.Fields {
-			for j, c := range f.eq(r, "q") {
+			for j, c := range f.eq(r, "gq") {
 				dec.Ensures = append(dec.Ensures, mustClause("ensures", "C01,C02", fmt.Sprintf("dec.%s.%d", f.Member, j), c))
 			}
 		}
@@ -442,6 +460,11 @@ func (w *World) synthesise(fs *FuncSpec) error {
 		// arbitrary input: safety, truncation reported, decoded value well-formed, allocation budget
 		safe := &Behavior{Name: "safe", Props: []string{"C03"}}
 		safe.Requires = append(safe.Requires, mustClause("requires", "", "", r+" != nil"))
+		for _, f := range lt.Fields {
+			if f.Kind == "rep" {
+				safe.Requires = append(safe.Requires, mustClause("requires", "", "", "len("+r+"."+f.Member+") == 0"))
+			}
+		}
 		safe.Ensures = append(safe.Ensures, mustClause("ensures", "C03", "trunc", fmt.Sprintf("err == nil ==> len(data) >= %d", lt.mandatory())))
 		safe.Ensures = append(safe.Ensures, mustClause("ensures", "C03", "alloc", "alloc <= 1048576 + 64 * len(data)"))
 		for _, f := range lt.Fields {
@@ -453,9 +476,135 @@ func (w *World) synthesise(fs *FuncSpec) error {
 			}
 		}
 		fs.Behaviors = append(fs.Behaviors, safe)
+	case "cmd", "resp", "setseq", "getseq":
+		return w.synthPairing(fs, doc, r, dir[0])
 	default:
 		return fmt.Errorf("%s: unknown layout directive %q", fs.Key, fs.Layout)
 	}
+	return nil
+}
+
+func (lt *LayoutType) idMember() string {
+	if lt.Header == "smpp16" {
+		return "Header.ID"
+	}
+	return "Header.CommandID"
+}
+
+func (lt *LayoutType) seqMember() string {
+	switch lt.Header {
+	case "smpp16":
+		return "Header.Sequence"
+	case "sgip20":
+		return "Header.Sequence[2]"
+	}
+	return "Header.SequenceID"
+}
+
+func (lt *LayoutType) commands() []string { return strings.Split(lt.Command, ",") }
+
+func parseCmd(s string) uint64 {
+	v, _ := strconv.ParseUint(strings.TrimPrefix(strings.TrimSpace(s), "0x"), 16, 64)
+	return v
+}
+
+// responseType: the type of the same package whose command is this type's command with the response bit set.
+func (w *World) responseType(lt *LayoutType) *LayoutType {
+	want := map[uint64]bool{}
+	for _, c := range lt.commands() {
+		want[parseCmd(c)|0x80000000] = true
+	}
+	for _, k := range sortedKeys(w.Layouts) {
+		o := w.Layouts[k]
+		if o.Pkg != lt.Pkg || o == lt || o.Command == "" {
+			continue
+		}
+		for _, c := range o.commands() {
+			if want[parseCmd(c)] {
+				return o
+			}
+		}
+	}
+	return nil
+}
+
+func (w *World) synthPairing(fs *FuncSpec, lt *LayoutType, r, kind string) error {
+	if lt.Command == "" {
+		return fmt.Errorf("%s: type has no command id", fs.Key)
+	}
+	b := fs.Behaviors[0]
+	b.Requires = append(b.Requires, mustClause("requires", "", "", r+" != nil"))
+	fs.Props = append(fs.Props, "C10")
+	cmds := lt.commands()
+	isResp := parseCmd(cmds[0])&0x80000000 != 0
+	switch kind {
+	case "cmd":
+		if len(cmds) == 1 {
+			b.Ensures = append(b.Ensures, mustClause("ensures", "C10", "cmd", fmt.Sprintf("cmdval(result) == %d", parseCmd(cmds[0]))))
+		} else {
+			// several command ids share this Go type (SMPP bind flavours): the reported command is the one in the header
+			b.Ensures = append(b.Ensures, mustClause("ensures", "C10", "cmd", fmt.Sprintf("cmdval(result) == int(%s.%s)", r, lt.idMember())))
+		}
+	case "resp":
+		if isResp {
+			b.Ensures = append(b.Ensures, mustClause("ensures", "C10", "resp.none", "result == nil"))
+			break
+		}
+		rt := w.responseType(lt)
+		if rt == nil {
+			b.Ensures = append(b.Ensures, mustClause("ensures", "C10", "resp.none", "result == nil"))
+			break
+		}
+		b.Ensures = append(b.Ensures, mustClause("ensures", "C10", "resp.type", fmt.Sprintf("typeIs(result, \"*%s.%s\")", shortKey(rt.Pkg), rt.Type)))
+		if len(cmds) == 1 {
+			b.Ensures = append(b.Ensures, mustClause("ensures", "C10", "resp.cmd", fmt.Sprintf("int(result.%s) == %d", lt.idMember(), parseCmd(cmds[0])|0x80000000)))
+		} else {
+			b.Ensures = append(b.Ensures, mustClause("ensures", "C10", "resp.cmd", fmt.Sprintf("int(result.%s) == int(%s.%s) + 2147483648", lt.idMember(), r, lt.idMember())))
+		}
+		b.Ensures = append(b.Ensures, mustClause("ensures", "C10", "resp.seq", fmt.Sprintf("result.%s == %s.%s", lt.seqMember(), r, lt.seqMember())))
+	case "setseq":
+		fn := w.LookupFunc(fs)
+		arg := "id"
+		if fn != nil && len(fn.Params) > 1 {
+			arg = fn.Params[1].Name()
+		}
+		fs.Options["modifies"] = r + "." + strings.Split(lt.seqMember(), "[")[0]
+		b.Ensures = append(b.Ensures, mustClause("ensures", "C10", "setseq", fmt.Sprintf("int(%s.%s) == int(%s)", r, lt.seqMember(), arg)))
+	case "getseq":
+		b.Ensures = append(b.Ensures, mustClause("ensures", "C10", "getseq", fmt.Sprintf("result == %s.%s", r, lt.seqMember())))
+	}
+	return nil
+}
+
+// synthDispatch: contract of a per-protocol dispatcher from the table of its package.
+func (w *World) synthDispatch(fs *FuncSpec) error {
+	var lts []*LayoutType
+	for _, k := range sortedKeys(w.Layouts) {
+		if lt := w.Layouts[k]; lt.Pkg == fs.Pkg && lt.Command != "" {
+			lts = append(lts, lt)
+		}
+	}
+	if len(lts) == 0 {
+		return fmt.Errorf("%s: no layout tables for package", fs.Key)
+	}
+	h := lts[0].headerLen()
+	b := fs.Behaviors[0]
+	fs.Props = append(fs.Props, "C10", "C03")
+	cmdExpr := "dbe32(ext(content(data), 4, 8))"
+	var all []string
+	for _, lt := range lts {
+		var conds []string
+		for _, c := range lt.commands() {
+			conds = append(conds, fmt.Sprintf("%s == %d", cmdExpr, parseCmd(c)))
+			all = append(all, fmt.Sprintf("%s == %d", cmdExpr, parseCmd(c)))
+		}
+		cond := "(" + strings.Join(conds, " || ") + ")"
+		b.Ensures = append(b.Ensures, mustClause("ensures", "C10", "type."+lt.Type, fmt.Sprintf("len(data) >= %d && err == nil && %s ==> typeIs(result, \"*%s.%s\")", h, cond, shortKey(lt.Pkg), lt.Type)))
+		b.Ensures = append(b.Ensures, mustClause("ensures", "C10", "dispatchable."+lt.Type, fmt.Sprintf("len(data) >= %d && %s ==> err != sms.ErrUnsupportedPacket", h, cond)))
+	}
+	b.Ensures = append(b.Ensures, mustClause("ensures", "C10", "unsupported", fmt.Sprintf("len(data) >= %d && !(%s) ==> result == nil && err == sms.ErrUnsupportedPacket", h, strings.Join(all, " || "))))
+	b.Ensures = append(b.Ensures, mustClause("ensures", "C10", "nonnil", "err == nil ==> result != nil"))
+	b.Ensures = append(b.Ensures, mustClause("ensures", "C03", "trunc", fmt.Sprintf("err == nil ==> len(data) >= %d", h)))
 	return nil
 }
 
